@@ -11,7 +11,9 @@ RULE = ("a case = (decorator options, what the class body defines itself, field 
         "ordering methods, __hash__, __match_args__, compile errors) is parsed; the same class text is executed "
         "by CPython with dataclasses.dataclass and its decisions are derived from inspect.signature and behaviour. "
         "Level 2 (compiled): a sample is built to extension modules and the same operations are run on the cdef "
-        "class and on the Python class.  Exhaustive: all 256 option sets on two fixed field lists, all 72 flag "
+        "class and on the Python class (constructor calls by position/keyword/omission, repr, six comparisons against "
+        "per-field variants, hash, frozen set/del, fields/asdict/astuple/replace/copy, special values None/nan/sets).  "
+        "Exhaustive in the thorough tier (sampled in quick): all 256 option sets on two fixed field lists, all 72 flag "
         "sets of one field, all default/init patterns of two fields; the rest PRNG.  Distinct by the case text; "
         "non-trivial = at least one field or a non-default option")
 EXPLANATION = ("theorems (all field lists / options): __init__ parameter list incl. the non-default-after-default error, "
@@ -34,7 +36,8 @@ TRUSTED = ["CPython 3.12 dataclasses module as the property oracle (run, not mod
 ASSUMPTIONS = ["CPython 3.12 dataclasses semantics", "no inheritance between dataclasses, no ClassVar, no KW_ONLY sentinel, no slots"]
 
 # flags to flip after the proposed fixes are applied to the tree (env C30_FX_<NAME>=1 overrides)
-FX = {"HASH_IS_NONE": os.environ.get("C30_FX_HASH_IS_NONE", "0")}     # proposed_fixes/C30-hash_ignores_compare_false.diff
+FX = {"HASH_IS_NONE": os.environ.get("C30_FX_HASH_IS_NONE", "0"),     # proposed_fixes/C30-hash_ignores_compare_false.diff
+      "MATCH_INIT": os.environ.get("C30_FX_MATCH_INIT", "0")}         # proposed_fixes/C30-match_args_includes_init_false.diff
 
 OPT_NAMES = ["init", "repr", "eq", "order", "unsafe_hash", "frozen", "match_args", "kw_only"]
 OPT_DEFAULT = dict(init=True, repr=True, eq=True, order=False, unsafe_hash=False, frozen=False, match_args=True, kw_only=False)
@@ -701,7 +704,7 @@ def level1(ctx, tagged_cases):
         ctx.corr_break("python oracle", "py_oracle.py", (pres["err"] or pres["out"])[-1500:], "a JSON result")
         return None
     model = ctx.model("dataclass")
-    mcy = model.batch([model_line("cy" + FX["HASH_IS_NONE"], c) for c in cases])
+    mcy = model.batch([model_line("cy" + FX["HASH_IS_NONE"] + FX["MATCH_INIT"], c) for c in cases])
     mpy = model.batch([model_line("py", c) for c in cases])
     decs = []
     for i, (tag, c) in enumerate(tagged_cases):
@@ -851,7 +854,7 @@ def run(ctx):
         ctx.extra["exhaustive_domains"] = ["hash action table: all 16 (unsafe_hash, eq, frozen, explicit __hash__) rows"]
     tagged = exhaustive_cases(quick, rng)
     seen = set(case_key(c) for _, c in tagged)
-    n_rand = 350 if quick else 5000
+    n_rand = int(os.environ.get("C30_NRAND", 0)) or (220 if quick else 5000)
     while n_rand > 0:
         c = rand_case(rng)
         k = case_key(c)
@@ -897,6 +900,13 @@ def ops(cls, case, LOG):
     add("fields", lambda: [[f.name, f.init, f.repr, f.compare, f.hash, f.default is MISSING, f.default_factory is MISSING,
                             f._field_type.name] for f in dataclasses.fields(cls)])
     add("fields_kw_only", lambda: [[f.name, f.kw_only if isinstance(f.kw_only, bool) else "MISSING"] for f in dataclasses.fields(cls)])
+    if not case["opts"]["init"] or case["user"]["init"]:
+        # no synthesised __init__: what remains is plain extension-type behaviour (a cdef class without
+        # __init__ accepts and ignores any arguments; its attributes are None, never unset)
+        return out
+    import re as _re
+    def clean(s):
+        return _re.sub(r"<[\w\.]*CLS object at 0x[0-9a-f]+>", "<CLS object>", s.replace(name, "CLS"))
     n = len(P)
     for k in range(n + 2):
         add("construct/pos%d" % k, lambda: snap(cls(*[tval(P[i]["typ"] if i < n else "object", i) for i in range(k)])))
@@ -919,8 +929,8 @@ def ops(cls, case, LOG):
         x0 = mk(); x0b = mk()
     except BaseException:
         return out
-    add("repr", lambda: repr(x0).replace(name, "CLS"))
-    add("str", lambda: str(x0).replace(name, "CLS"))
+    add("repr", lambda: clean(repr(x0)))
+    add("str", lambda: clean(str(x0)))
     import operator
     OPS = [("eq", operator.eq), ("ne", operator.ne), ("lt", operator.lt), ("le", operator.le), ("gt", operator.gt), ("ge", operator.ge)]
     for on, of in OPS:
@@ -947,9 +957,9 @@ def ops(cls, case, LOG):
     add("astuple", lambda: repr(dataclasses.astuple(x0)))
     if P:
         f = P[0]
-        add("replace", lambda: repr(dataclasses.replace(x0, **{f["name"]: tval(f["typ"], 3)})).replace(name, "CLS"))
-    add("replace/none", lambda: repr(dataclasses.replace(x0)).replace(name, "CLS"))
-    add("copy", lambda: repr(copy.copy(x0)).replace(name, "CLS") if case["opts"]["repr"] else "-")
+        add("replace", lambda: clean(repr(dataclasses.replace(x0, **{f["name"]: tval(f["typ"], 3)}))))
+    add("replace/none", lambda: clean(repr(dataclasses.replace(x0))))
+    add("copy", lambda: clean(repr(copy.copy(x0))))
     for f in real:
         if case["opts"]["frozen"]:
             add("frozen/del-" + f["name"], lambda: delattr(mk(), f["name"]))
@@ -1033,6 +1043,18 @@ def classify_op(case, op):
     return "behaviour_mismatch_" + op.split("/")[0]
 
 
+def replay(ctx, obj):
+    inp = obj.get("input", obj)
+    case = inp.get("case") if isinstance(inp, dict) else None
+    if not case:
+        print(json.dumps(obj, indent=1))
+        print("(special-value probe: reproduces with the quick check)")
+        return
+    tagged = [("replay", case)]
+    decs = level1(ctx, tagged)
+    level2(ctx, tagged, decs)
+
+
 def level2(ctx, tagged, decs):
     quick = ctx.tier == "quick"
     rng = ctx.rng
@@ -1098,7 +1120,7 @@ def level2(ctx, tagged, decs):
                     if ma[1] != repr(tuple(exp)):
                         ctx.corr_break("cy_match_args(compiled)", inp, ma[1], exp)
                 hp = obs.get("hash")
-                if hp:
+                if hp and not (hp[0] == "exc" and m_cy["hash"].startswith("ADD:")):
                     kind = "unhashable" if hp[0] == "exc" else hp[1][0]
                     exp = {"NONE": ["unhashable"], "KEEP": ["identity", "value", "unhashable"], "ERR": []}.get(m_cy["hash"], ["value"])
                     if kind not in exp:
